@@ -200,7 +200,8 @@ pub fn into_tokens(c: char, it: &mut Peekable<Chars>, state: &mut State) -> LexR
                             cur_offset = caret;
                         }
                         build_cur_expr += 1;
-                    } else if c == '}' {
+                    } else if c == '}' && build_cur_expr > 0 {
+                        // A closing brace which closes nothing is literal text.
                         build_cur_expr -= 1;
                     }
 
